@@ -34,6 +34,19 @@ class PristineMemo:
         return ans
 
 
+TWIN_KINDS = ("sequence", "location", "parent", "transcript", "cds", "feature", "variant", "gene", "feature_collection", "variant_collection", "collection")
+
+
+def twin_answer(memo, plan, objname, opname, args):
+    key = "twin:" + world.expr_key(plan, objname, opname, args)
+    if key in memo.d:
+        return memo.d[key]
+    ans = world.run_in_fork(world.twin_main, world.sub_plan(plan, objname, args), objname, opname, args)
+    if len(memo.d) < memo.limit:
+        memo.d[key] = ans
+    return ans
+
+
 def _sig(inv, kind, op, a, b):
     try:
         path, dk = first_diff(json.loads(a), json.loads(b))
@@ -114,6 +127,22 @@ def run_plan(plan, memo=None):
             findings.append(f)
             tainted |= fam
             continue
+        # I5 (equal by value -> equal answers): a DERIVED low-level object (the result of an operation) must answer like a
+        # twin rebuilt from nothing but its values through the public constructors; its recipe-built pristine twin shares
+        # its provenance, so whatever a derivation plants on its result is invisible to I1.  Sampled by expression digest.
+        if kind in TWIN_KINDS and "from" in objects[name] and "slice" not in rec and st["op"] != "__obs__" \
+                and int(world.expr_key(plan, name, st["op"], st.get("args", []))[:2], 16) % 3 == 0:
+            tw = twin_answer(memo, plan, name, st["op"], st.get("args", []))
+            if "skip" in tw:
+                stats["twin_skips"] = stats.get("twin_skips", 0) + 1
+            else:
+                stats["twin_compared"] = stats.get("twin_compared", 0) + 1
+                if tw["ans"] != pristine:
+                    f = _sig("I5", kind, st["op"], pristine, tw["ans"])
+                    f.update(step=rec["k"], obj=name, world=pristine[:400], pristine=tw["ans"][:400])
+                    findings.append(f)
+                    tainted |= fam
+                    continue
         if rec.get("argmut"):
             am = rec["argmut"]
             findings.append({"inv": "I2", "kind": kind, "op": st["op"], "diff": "argument_changed", "detail": f"argument {am['i']}", "path": f"/arg{am['i']}",
